@@ -46,3 +46,16 @@ Theorem sparse_epoch_treats_null_columns_like_dense : forall (prox_1d : R -> R -
   = @_cd_epoch R _ prox_1d g_dense X y w Xw lc ws.
 Proof. exact cd_epoch_sparse_eq_dense. Qed.
 Print Assumptions sparse_epoch_treats_null_columns_like_dense.
+
+(* GroupBCD: an all-zero group (zero Lipschitz constant) is skipped by the regenerated block epoch -- the gradient accessor and
+   the prox are not even called, so nothing is divided by zero and (w, Xw) come back unchanged *)
+Require Import SK.Gen.KernBCD SK.Lemmas.BcdEpoch.
+Theorem bcd_epoch_skips_null_groups : forall (prox_1group : list R -> R -> Z -> res (list R))
+    (gg_dense : list (list R) -> list R -> list R -> list R -> Z -> res (list R))
+    (X : list (list R)) (y lip : list R) (grp_ptr grp_indices : list Z) ws w Xw,
+  Forall (fun g => get_idx lip g = Ok 0) ws ->
+  Forall (fun g => exists a b s old, get_idx grp_ptr g = Ok a /\ get_idx grp_ptr (g + 1) = Ok b /\ slice grp_indices a b = Ok s
+                                 /\ gather w s = Ok old) ws ->
+  @_bcd_epoch R _ grp_ptr grp_indices gg_dense prox_1group X y w Xw lip ws = Ok (w, Xw).
+Proof. exact bcd_epoch_zero_lipschitz_untouched. Qed.
+Print Assumptions bcd_epoch_skips_null_groups.
